@@ -8,7 +8,13 @@ verdict on the same raw fragment.  Expectations:
   * property (direct oracle): a changed digit of I/O/D/an added/a removed digest of a transaction
     that is not a roll-up, a changed O of a roll-up, and a rebuilt output file MUST be rejected;
   * correspondence: the error class of the real verifier equals the model's for every case
-    (including the cases the verifier is not expected to notice: roll-up I/D/adds, in-place edits)."""
+    (including what the verifier does not look at, C04_rollup_I_D_adds_not_checked: the I, the D and
+    the added digests of a roll-up edit);
+  * in-place edits of one entry of an output file (name, manifest and digests untouched) MUST be
+    rejected since the verifier recomputes the setsum of every sst a transaction adds (verify_sst);
+  * a modify that replaces an entry by a different entry with the SAME frame (no length prefixes in
+    sst::Setsum's framing) keeps every setsum: known finding setsum-framing-collision."""
+import collections
 import os
 import shutil
 
@@ -16,7 +22,21 @@ import c04_lib as L
 import c04_run as R
 
 SEP = b"--------\n"
-HEXD = "0123456789abcdef"
+HEXD = "0123456789abcdefABCDEF"
+
+
+def framing_twins(e):
+    """different puts with the same frame as e: one byte moves between key / timestamp / value"""
+    k, ts, v = e
+    if v is None:
+        return []
+    t8 = ts.to_bytes(8, "little")
+    out = []
+    if len(v) >= 1:
+        out.append((k + t8[:1], int.from_bytes(t8[1:] + v[:1], "little"), v[1:]))
+    if len(k) >= 1:
+        out.append((k[:-1], int.from_bytes(k[-1:] + t8[:7], "little"), t8[7:] + v))
+    return [x for x in out if x != e and L.item_of(x) == L.item_of(e)]
 
 
 def split_edits(data):
@@ -68,6 +88,7 @@ class Campaign:
     def __init__(self, run, rng, stats):
         self.run, self.rng, self.stats = run, rng, stats
         self.problems = []
+        self.known = collections.Counter()      # known-finding class -> hits
         self.root = run.root
         self.tool, self.model = run.tool, run.model
         self.n = 0
@@ -106,7 +127,7 @@ class Campaign:
             acc = mv[2]
         return ("ok", acc, None)
 
-    def one_case(self, fid, patch_fn, what, must_reject, files=None):
+    def one_case(self, fid, patch_fn, what, must_reject, files=None, known_class=None):
         """patch_fn(edits) -> edits' (lists of raw lines) or None; files: list of (action, name, ents, newname)"""
         src = os.path.join(self.root, "mani", "MANIFEST.%d" % fid)
         data = open(src, "rb").read()
@@ -168,11 +189,26 @@ class Campaign:
                 impl_class = impl
             replay = {"case": what, "fragment": fid, "impl": impl, "model": " ".join(str(x) for x in mv),
                       "patched_fragment": join_edits(new).decode("latin1")[-1500:]}
-            if must_reject and impl_class == "ok":
+            accepted = impl_class == "ok"
+            if impl_class.startswith("backoff"):
+                # process_one backs off AFTER verify_one returned Ok for the fragment it is at: which one?
+                vs = L.Inspection(self.tool.cmd("inspect %s brief" % dst, multi=True)).state["verify"]
+                m = vs.get("M", "-")
+                at = (int(m.split(".")[1]) if m.startswith("MANIFEST.") else 0) + 1
+                if at >= fid:
+                    # the tampered fragment itself was judged and found in order
+                    accepted = True
+                    self.stats["backoff_after_accepting"] += 1
+                else:
+                    # an untouched earlier fragment waits for a trash entry (C08's subject): not judged
+                    self.stats["backoff_before_judging"] += 1
+            if must_reject and accepted and known_class and model_class in ("ok", impl_class):
+                # inside a class recorded in known_findings.txt
+                self.known[known_class] += 1
+            elif must_reject and accepted:
                 self.problem("property", what="the verifier ACCEPTS a history with one tampered %s" % what, **replay)
             elif impl_class.startswith("backoff"):
-                # the pass did not get to judge the fragment (a file is not in the trash): C08's subject
-                self.stats["backoff"] += 1
+                pass
             elif impl_class != model_class:
                 self.problem("corr", what="verdict of the real verifier differs from the model's on a tampered fragment",
                              impl_class=impl_class, model_class=model_class, **replay)
@@ -202,8 +238,8 @@ class Campaign:
             if i is None:
                 return None
             body = line_body(edits[e][i])
-            if 1 + pos >= len(body) or body[1 + pos] == newdigit:
-                return None
+            if 1 + pos >= len(body) or body[1 + pos].lower() == newdigit.lower():
+                return None     # the same digit value (a / A): not a change
             body = body[:1 + pos] + newdigit + body[2 + pos:]
             edits[e][i] = L.mani_line(body)
             return edits
@@ -272,8 +308,24 @@ class Campaign:
             fid, e, i, name, is_compaction = rng.choice(outs)
             ents = list(self.run.files[name])
             j = rng.below(len(ents))
-            kind = rng.choice(["drop", "modify-value", "modify-ts", "modify-key", "dup", "inplace-drop", "inplace-value"])
+            kind = rng.choice(["drop", "modify-value", "modify-ts", "modify-key", "modify-framing", "dup", "inplace-drop", "inplace-value"])
             k0, ts0, v0 = ents[j]
+            if kind == "modify-framing":
+                # another entry with the SAME frame ([8] ++ key ++ ts_le64 ++ value has no length prefixes)
+                cand = [(jj, tw) for jj, e0 in enumerate(ents) for tw in framing_twins(e0)
+                        if (tw[0], tw[1]) not in set((x[0], x[1]) for x in ents)]
+                if not cand:
+                    self.stats["framing_no_twin"] += 1
+                    continue
+                jj, tw = rng.choice(cand)
+                new = sorted(ents[:jj] + [tw] + ents[jj + 1:], key=R.kr_key)
+                newname = L.ss_hex(L.ss_of_entries(new))
+                if newname != name:
+                    self.problem("corr", what="a framing twin changed the setsum (the Python rendering of the framing is wrong)")
+                    continue
+                self.one_case(fid, lambda edits: edits, "entry:modify-framing", True, files=[("replace", name, new, newname)],
+                              known_class="setsum-framing-collision")
+                continue
             if kind in ("drop", "inplace-drop"):
                 if len(ents) < 2:
                     continue
@@ -292,7 +344,8 @@ class Campaign:
                 self.one_case(fid, self._replace_add(e, name, newname), "entry:duplicate (digest level)", True)
                 continue
             if kind.startswith("inplace"):
-                self.one_case(fid, lambda edits: edits, "inplace:%s" % kind, False, files=[("inplace", name, new, name)])
+                # since /repo's verify_sst the verifier reads every sst a judged transaction adds
+                self.one_case(fid, lambda edits: edits, "inplace:%s" % kind, True, files=[("inplace", name, new, name)])
                 continue
             newname = L.ss_hex(L.ss_of_entries(new))
             self.one_case(fid, self._replace_add(e, name, newname), "entry:%s" % kind, True, files=[("replace", name, new, newname)])
